@@ -326,16 +326,67 @@ def strategy():
     return st.one_of(gen.case_strategy(), gen.case_strategy(), gen.repaired_case())
 
 
+def eval_depths(case):
+    """(a) and (b) hold at every validation depth: under SCHEMA_ONLY / DATA_ONLY lazy validation raises exactly when
+    eager validation raises, and the eager error is one of the collected ones (no reference model involved)."""
+    from pandera.config import ValidationDepth, config_context
+
+    ev = Eval()
+    spec, table = case["spec"], case["table"]
+    schema, data = c01.build(case)
+    ev.labels.append("kind=" + spec.get("kind", "dataframe"))
+    for depth in ("SCHEMA_ONLY", "DATA_ONLY"):
+        def run(lazy):
+            def call():
+                with config_context(validation_depth=getattr(ValidationDepth, depth)):
+                    return schema.validate(data, lazy=lazy)
+            return fp.outcome(call)
+        eager, lazy = run(False), run(True)
+        if "internal" in (eager["kind"], lazy["kind"]) or "usage" in (eager["kind"], lazy["kind"]):
+            ev.labels.append("internal-or-usage-outcome")
+            continue
+        ev.labels.append(f"{depth}:" + ("accept" if eager["kind"] == "ok" else "reject"))
+        if eager["kind"] != "ok":
+            ev.nontrivial = True
+        if (eager["kind"] == "ok") != (lazy["kind"] == "ok"):
+            ev.add(f"lazy-eager-verdict-differ:{depth}", {"eager": eager["kind"], "lazy": lazy["kind"],
+                                                         "eager_reasons": eager.get("reasons"), "lazy_reasons": lazy.get("reasons")})
+            continue
+        if eager["kind"] == "ok":
+            continue
+        if lazy["kind"] != "SchemaErrors" or eager["kind"] != "SchemaError":
+            ev.add(f"wrong-error-class:{depth}", {"eager": eager["kind"], "lazy": lazy["kind"]})
+            continue
+
+        def ident(x):
+            return (getattr(x.reason_code, "name", str(x.reason_code)), str(x.check))
+        ids = [ident(x) for x in lazy["exc"].schema_errors]
+        if ident(eager["exc"]) not in ids:
+            ev.add(f"eager-error-not-among-lazy-errors:{depth}:" + ident(eager["exc"])[0], {"eager": ident(eager["exc"]), "lazy": ids[:10]})
+        try:
+            counts = {k: v for k, v in dict(lazy["exc"].error_counts).items() if v}
+            actual = dict(Counter(getattr(x.reason_code, "name", str(x.reason_code)) for x in lazy["exc"].schema_errors))
+            if counts != actual:
+                ev.add(f"error_counts-mismatch:{depth}", {"error_counts": counts, "by_reason": actual})
+        except Exception as e:
+            ev.add(f"error_counts-unreadable:{depth}", repr(e)[:200])
+    return ev
+
+
 FAMILIES = [
-    Family("report", evaluate, strategy=strategy, n_quick=600, n_thorough=5000, shards_quick=4, shards_thorough=16,
+    Family("report", evaluate, strategy=strategy, n_quick=1200, n_thorough=5000, shards_quick=4, shards_thorough=16,
            required_labels=["multi-reason", "both-accept", "kind=series"]),
 ]
 
 from . import plx  # noqa: E402
 
 FAMILIES.append(
+    Family("depths", eval_depths, strategy=strategy, n_quick=600, n_thorough=3000, shards_quick=3, shards_thorough=12,
+           required_labels=["SCHEMA_ONLY:reject", "DATA_ONLY:reject", "DATA_ONLY:accept"]))
+
+FAMILIES.append(
     Family("polars_report", plx.eval_c02, strategy=lambda: plx.strat_case(parsers="none", containers=("df", "df", "lf_full")),
-           n_quick=350, n_thorough=3000, shards_quick=3, shards_thorough=12,
+           n_quick=700, n_thorough=3000, shards_quick=3, shards_thorough=12,
            required_labels=["container=lf_full", "report-compared", "multi-reason"]))
 
 
